@@ -730,6 +730,28 @@ class G:
                     self.features.add("mux-case-without-structure")
                 cases.append({"name": f"c{c}", "lo": lo, "hi": hi, "st": cs})
                 lo = hi + 1 + self.pick([0, 0, 2])
+            default = None
+            used = set()
+            for c in cases:
+                used |= set(range(c["lo"], c["hi"] + 1))
+            free_keys = [k_ for k_ in range(0, min(hi_max, 40) + 1) if k_ not in used]
+            if free_keys and self.opts.get("mux_default", True) and self.chance(30):
+                ds = None
+                if self.chance(80):
+                    ds, _, _ = self.struct(0, not tail and self.chance(70), tail)
+                default = {"name": "dflt", "st": ds}
+                self.features.add("mux-default-case")
+            muxdop = {"k": "mux", "id": self.nid("mx"), "bp": bp, "key": {"dop": kdop, "bp": 0, "bit": kbit},
+                      "cases": cases, "default": default}
+            self.features.add("mux")
+            if default is not None and self.chance(50):
+                content = self.values_for_struct(default["st"]) if default["st"] is not None else {}
+                if self.opts.get("mux_default_by_name") and self.chance(50):
+                    # selected by its name: the key value is chosen by odxtools (C01 self-consistency only)
+                    self.features.add("mux-default-by-name")
+                    return muxdop, ["dflt", content], None
+                self.features.add("mux-default-selected")
+                return muxdop, [self.pick(free_keys), content], None
             case = self.pick(cases)
             content = self.values_for_struct(case["st"]) if case["st"] is not None else {}
             form = self.d(st.integers(0, 9))
@@ -739,9 +761,7 @@ class G:
                 kv = self.d(st.integers(case["lo"], case["hi"]))
                 val = [kv, content]
                 self.features.add("mux-by-key")
-            self.features.add("mux")
-            return ({"k": "mux", "id": self.nid("mx"), "bp": bp, "key": {"dop": kdop, "bp": 0, "bit": kbit},
-                     "cases": cases, "default": None}, val, None)
+            return muxdop, val, None
         raise AssertionError(k)
 
     # ------------------------------------------------------------------ values for an existing structure
